@@ -76,12 +76,14 @@ class St(list):
     """A conjunction of constraints plus the branch trace that led to it."""
 
     trace = ()
+    tainted = False
 
     @staticmethod
     def of(cons, parent=None, label=None):
         x = St(cons)
         tr = getattr(parent, "trace", ())
         x.trace = tr + ((label,) if label else ())
+        x.tainted = getattr(parent, "tainted", False)
         return x
 
 
@@ -110,6 +112,19 @@ class Analyzer:
         self.loops = []
         self.nonaffine = []
         self.trace = []  # branch trace (cex mode)
+        # ---- content-aware extension (kernels that index with values read from integer arrays)
+        self.elem = {}  # memoryview name -> [lo Lin|None, hi Lin|None]: bounds holding for EVERY element
+        self.elem0 = {}  # memoryview name -> (exact value of element 0, array version): valid until the array is written
+        self.content_vars = set()  # scalars whose current value was read from an array
+        self.pyfacts = {}  # Python variable -> {"len": Lin|None, "lo": Lin|None, "hi": Lin|None, "tag": ...}
+        self.pending = []  # constraints on freshly introduced read symbols, attached by split/assign
+        self.nread = 0
+        self.ver = {}  # name -> version (scalars and arrays), for aliases
+        self.alias = {}  # scalar -> (array, index repr, versions)
+        self.cont = []  # stack of continue-state collectors
+        self.content_reads = 0
+        self.weakened = set()  # (array, 'lo'|'hi') that an element write could not be shown to preserve
+        self.lemmas = []  # lemma instances used in the prelude (reported)
 
     # ---------------- expressions
     def is_counter_type(self, t):
@@ -136,6 +151,36 @@ class Analyzer:
             raise Unknown("non-linear product")
         if k == "UnaryMinusNode":
             return -self.lin(n.operand)
+        if k == "MemoryViewIndexNode" and self.is_counter_type(n.type) and tname(n.base) == "NameNode" and len(n.indices) == 1:
+            # a value read from an integer array: a fresh symbol bounded by the array's element facts
+            base = n.base.name
+            self.nread += 1
+            self.content_reads += 1
+            r = "rd%d_%s" % (self.nread, base)
+            lo, hi = self.elem.get(base, [None, None])
+            x = Lin.var(r)
+            if lo is not None and (base, "lo") not in self.weakened:
+                self.pending.append(lo.le(x))
+            if hi is not None and (base, "hi") not in self.weakened:
+                self.pending.append(x.le(hi))
+            try:
+                ix = self.lin(n.indices[0])
+                self._last_read = (r, base, repr(ix), self._versions(n.indices[0], base))
+            except Unknown:
+                self._last_read = None
+            return x
+        if k == "SimpleCallNode" and tname(n.function) == "NameNode" and n.function.name == "len":
+            args = n.args if getattr(n, "args", None) is not None else n.arg_tuple.args
+            a = args[0]
+            while tname(a) in ("CoerceToPyTypeNode", "CoerceToTempNode", "CloneNode", "NoneCheckNode"):
+                a = a.arg
+            if tname(a) == "NameNode":
+                if str(a.type).endswith("[:]"):
+                    return Lin.var("len_" + a.name)
+                f = self.pyfacts.get(a.name)
+                if f is not None and f.get("len") is not None:
+                    return f["len"]
+            raise Unknown("len() of an untracked object")
         if k == "IndexNode" and tname(n.base) == "AttributeNode" and n.base.attribute == "shape":
             ix = n.index
             if tname(ix) == "IntNode" and int(ix.value) == 0 and tname(n.base.obj) == "NameNode":
@@ -215,6 +260,7 @@ class Analyzer:
         if k not in self.sites:
             self.sites[k] = s
             self.order.append(k)
+            s.data_write = bool(getattr(self, "_writing", False)) and not self.is_counter_type(mv.type)
         return self.sites[k]
 
     def check_expr(self, n, states):
@@ -241,6 +287,8 @@ class Analyzer:
                     if self.cex:
                         neg = ({v: -a for v, a in c[0].items()}, -c[1] - 1)
                         for st in states:
+                            if getattr(st, "tainted", False):
+                                continue  # reached through a decision on array contents that could go either way
                             if s.witness is None and feasible(list(st) + [neg]):
                                 m = model(list(st) + [neg])
                                 if m is not None:
@@ -263,7 +311,10 @@ class Analyzer:
     # ---------------- statements
     def assign(self, states, var, e):
         out = []
-        for st in states:
+        extra = self.take_pending()
+        self._bump(var)
+        for st0 in states:
+            st = list(st0) + extra
             if var in e.d:
                 c = e.d.get(1, 0)
                 if not (e.d.get(var) == 1 and all(k in (var, 1) or v == 0 for k, v in e.d.items())):
@@ -277,20 +328,59 @@ class Analyzer:
                 new = list(project(st, var))
                 x = Lin.var(var)
                 new += [x.le(e), e.le(x)]
-            out.append(St.of(new, st))
+            out.append(St.of(new, st0))
         return out
 
     def havoc(self, states, var):
         out = []
+        self._bump(var)
         for st in states:
             out.append(St.of(project(st, var), st))
         return out
 
-    def split(self, states, dnf, label):
+    def _versions(self, idx_node, base):
+        names = [x.name for x in walk(idx_node) if tname(x) == "NameNode"]
+        return tuple(sorted((nm, self.ver.get(nm, 0)) for nm in names + [base]))
+
+    def _bump(self, name):
+        self.ver[name] = self.ver.get(name, 0) + 1
+
+    def attach(self, states):
+        extra = self.take_pending()
+        if not extra:
+            return states
+        return [St.of(list(st) + extra, st) for st in states]
+
+    def take_pending(self):
+        p, self.pending = self.pending, []
+        return p
+
+    def _is_content(self, c):
+        return any(str(v).startswith("rd") or v in self.content_vars for v in c[0])
+
+    def taint_split(self, states, tdnf, fdnf):
+        """cex mode: mark states in which a decision on array CONTENTS could go either way; a witness
+        is only believed on a path whose content-dependent decisions were all forced."""
+        if not self.cex:
+            return states
+        content = any(self._is_content(c) for conj in list(tdnf) + list(fdnf) for c in conj)
+        if not content:
+            return states
         out = []
         for st in states:
+            t_ok = any(feasible(list(st) + list(c)) for c in tdnf)
+            f_ok = any(feasible(list(st) + list(c)) for c in fdnf)
+            st2 = St.of(list(st), st)
+            st2.tainted = getattr(st, "tainted", False) or (t_ok and f_ok)
+            out.append(st2)
+        return out
+
+    def split(self, states, dnf, label):
+        out = []
+        extra = self.take_pending()
+        for st in states:
             for c in dnf:
-                st2 = St.of(list(st) + list(c), st, label)
+                st2 = St.of(list(st) + list(c) + extra, st, label)
                 if feasible(st2):
                     out.append(st2)
         return out
@@ -320,6 +410,13 @@ class Analyzer:
             return [], []
         if k == "BreakStatNode":
             return [], states
+        if k == "ContinueStatNode":
+            if not self.cont:
+                raise Unknown("continue outside a supported loop at line %d" % n.pos[1])
+            self.cont[-1].extend(states)
+            return [], []
+        if k == "ForInStatNode":
+            return self.for_range(n, states), []
         if k == "SingleAssignmentNode":
             return self.exec_assign(n, states), []
         if k == "CascadedAssignmentNode":
@@ -341,13 +438,16 @@ class Analyzer:
                 return self.assign(states, lhs.name, e), []
             if tname(lhs) == "MemoryViewIndexNode":
                 self.check_expr(lhs, states)
+                self.element_write(lhs, n.operator, n.rhs, states)
             return states, []
         if k == "IfStatNode":
             out, brk = [], []
             cur = states
             for cl in n.if_clauses:
-                self.check_expr(cl.condition, cur)
+                self.check_cond(cl.condition, cur)
                 tdnf, fdnf = self.cond_cases(cl.condition)
+                cur = self.attach(cur)  # facts about values read in the condition hold on both branches
+                cur = self.taint_split(cur, tdnf, fdnf)
                 lab = "L%d:T" % cl.pos[1]
                 tst = self.split(cur, tdnf, lab)
                 o, b = self.exec(cl.body, tst)
@@ -365,18 +465,173 @@ class Analyzer:
             return self.loop(n, states), []
         raise Unknown("statement %s at line %d" % (k, n.pos[1]))
 
+    def check_cond(self, n, states):
+        """check_expr with short-circuit evaluation: the right operand of `a and b` is only reached when a holds."""
+        m = n
+        while tname(m) in ("CoerceToTempNode", "ProxyNode", "BoolBinopResultNode", "CoerceToBooleanNode", "CloneNode") and hasattr(m, "arg"):
+            m = m.arg
+        if tname(m) == "BoolBinopNode":
+            self.check_cond(m.operand1, states)
+            t1, f1 = self.cond_cases(m.operand1)
+            sub = self.split(self.attach(list(states)), t1 if m.operator == "and" else f1, None)
+            self.check_cond(m.operand2, sub)
+            return
+        self.check_expr(n, states)
+
+    def element_write(self, lhs, op, rhs, states):
+        """A[i] (op)= e on an integer array with element facts: keep a bound only if the new value respects it."""
+        if tname(lhs.base) != "NameNode" or not self.is_counter_type(lhs.type):
+            return
+        base = lhs.base.name
+        if base not in self.elem:
+            self._bump(base)
+            return
+        lo, hi = self.elem[base]
+        try:
+            d = self.lin(rhs)
+            self.take_pending()
+        except Unknown:
+            d = None
+        newval = None
+        if d is not None:
+            if op is None:
+                newval = d
+            elif op in ("+", "-"):
+                # the old element: a scalar that still aliases A[i], else a fresh read
+                old = None
+                try:
+                    ixr = repr(self.lin(lhs.indices[0]))
+                except Unknown:
+                    ixr = None
+                cur = self._versions(lhs.indices[0], base)
+                for v, (arr, ir, vers, vv) in self.alias.items():
+                    if arr == base and ir == ixr and vers == cur and self.ver.get(v, 0) == vv:
+                        old = Lin.var(v)
+                        break
+                if old is not None:
+                    newval = old + d if op == "+" else old - d
+        for which, bound in (("lo", lo), ("hi", hi)):
+            if bound is None or (base, which) in self.weakened:
+                continue
+            ok = newval is not None and bool(states) and all(entails(st, bound.le(newval) if which == "lo" else newval.le(bound)) for st in states)
+            if not ok and states:
+                self.weakened.add((base, which))
+        self._bump(base)
+
+    def for_range(self, n, entry_states):
+        """for i in range(stop) / range(start, stop) over C integers, with `continue`."""
+        tgt = n.target
+        it = n.iterator
+        seq = it.sequence if hasattr(it, "sequence") else None
+        while seq is not None and tname(seq) in ("CoerceToTempNode", "CloneNode", "NoneCheckNode"):
+            seq = seq.arg
+        if tname(tgt) != "NameNode" or not self.is_counter_type(tgt.type) or seq is None or tname(seq) != "SimpleCallNode" \
+                or tname(seq.function) != "NameNode" or seq.function.name != "range" or n.else_clause is not None:
+            raise Unknown("statement ForInStatNode (not `for <C int> in range(...)`) at line %d" % n.pos[1])
+        args = seq.args if getattr(seq, "args", None) is not None else seq.arg_tuple.args
+        if len(args) not in (1, 2):
+            raise Unknown("range() with a step at line %d" % n.pos[1])
+        start = Lin.const(0) if len(args) == 1 else self.lin(args[0])
+        stop = self.lin(args[-1])
+        i = tgt.name
+        mod = self.modified(n.body) | {i}
+        if any(v in mod for v in stop.d if v != 1):
+            raise Unknown("range() bound modified inside the loop at line %d" % n.pos[1])
+        one = Lin.const(1)
+        X = Lin.var(i)
+        in_dnf = [[(X + one).le(stop)]]
+        out_dnf = [[stop.le(X)]]
+
+        def body_once(head):
+            self.cont.append([])
+            fall, brk = self.exec(n.body, head)
+            fall = fall + self.cont.pop()
+            nxt = self.assign(fall, i, X + one) if fall else []
+            return nxt, brk
+
+        states = self.assign(entry_states, i, start)
+        if self.cex:
+            exits = []
+            cur = states
+            for itn in range(self.unroll):
+                exits += self.havoc(self.split(cur, out_dnf, None), i)
+                head = self.split(cur, in_dnf, "L%d:iter%d" % (n.pos[1], itn + 1))
+                cur, brk = body_once(head)
+                exits += brk
+            return exits
+        exits = []
+        for entry in states:
+            for v in mod:
+                self._bump(v)
+            for arr in self.written_arrays(n.body):
+                self._bump(arr)
+            vars_ = sorted(set(v for c in entry for v in c[0]))
+            cands = {}
+
+            def add(c):
+                c = norm(c)
+                cands[(ckey(c), c[1])] = c
+
+            for c in entry:
+                add(c)
+            modl = sorted(v for v in mod)
+            lens = [v for v in vars_ if v not in mod and not v.startswith("rd")]
+            M = [Lin.var(v) for v in modl]
+            Ls = [Lin.var(v) for v in lens]
+            for x in M:
+                for kk in (-1, 0, 1):
+                    add(Lin.const(kk).le(x))
+                for l in Ls:
+                    for kk in (-1, 0):
+                        add((x - l).le(Lin.const(kk)))
+            for x, y in itertools.permutations(M, 2):
+                for kk in (-1, 0, 1):
+                    add((x - y).le(Lin.const(kk)))
+            add(start.le(X))
+            add(X.le(stop)) if entails(entry, start.le(stop)) else None
+            inv = [c for c in cands.values() if entails(entry, c)]
+            saved = self.record
+            self.record = False
+            rounds = 0
+            while True:
+                rounds += 1
+                head = [St.of(inv + c) for c in in_dnf]
+                out, brk = body_once([h for h in head if feasible(h)])
+                new = [c for c in inv if all(entails(st, c) for st in out)]
+                if len(new) == len(inv):
+                    break
+                inv = new
+            self.record = saved
+            self.loops.append({"line": n.pos[1], "candidates": len(cands), "invariant_conjuncts": len(inv), "rounds": rounds, "kind": "for-range"})
+            head = [St.of(inv + c) for c in in_dnf]
+            out, brk = body_once([h for h in head if feasible(h)])  # recording pass
+            done = [x for x in (St.of(inv + c) for c in out_dnf) if feasible(x)]
+            exits += brk + self.havoc(done, i)
+        return exits
+
+    def written_arrays(self, n):
+        out = set()
+        for x in walk(n):
+            if tname(x) in ("SingleAssignmentNode", "InPlaceAssignmentNode") and tname(x.lhs) == "MemoryViewIndexNode" and tname(x.lhs.base) == "NameNode":
+                out.add(x.lhs.base.name)
+        return out
+
     def exec_assign(self, n, states):
         self.check_expr(n.rhs, states)
         lhs = n.lhs
         lk = tname(lhs)
         if lk == "MemoryViewIndexNode":
+            self._writing = True
             self.check_expr(lhs, states)
+            self._writing = False
+            self.element_write(lhs, None, n.rhs, states)
             return states
         if lk != "NameNode":
             # e.g. result[:left_len] = left_array : ordinary (checked) Python indexing
             return states
         t = str(lhs.type)
         if self.is_counter_type(lhs.type):
+            self._last_read = None
             cases = self.cond_expr_cases(n.rhs)
             out = []
             for cons, e in cases:
@@ -385,11 +640,42 @@ class Analyzer:
                     out += self.havoc(sts, lhs.name)
                 else:
                     out += self.assign(sts, lhs.name, e)
+            r = n.rhs
+            while tname(r) in ("CoerceToTempNode", "CloneNode", "TypecastNode") and hasattr(r, "arg"):
+                r = r.arg
+            self.alias.pop(lhs.name, None)
+            self.content_vars.discard(lhs.name)
+            if tname(r) == "MemoryViewIndexNode" and self._last_read is not None:
+                rsym, base, ixr, vers = self._last_read
+                self.alias[lhs.name] = (base, ixr, vers, self.ver.get(lhs.name, 0))
+                self.content_vars.add(lhs.name)
+                e0 = self.elem0.get(base)
+                if e0 is not None and e0[1] == self.ver.get(base, 0):
+                    try:
+                        ix = self.lin(r.indices[0])
+                        pinned = []
+                        for st in out:
+                            if entails(st, ix.le(Lin.const(0))) and entails(st, Lin.const(0).le(ix)):
+                                x = Lin.var(lhs.name)
+                                pinned.append(St.of(list(st) + [x.le(e0[0]), e0[0].le(x)], st))
+                            else:
+                                pinned.append(st)
+                        out = pinned
+                    except Unknown:
+                        pass
             return out
         if t.endswith("[:]"):
             src = n.rhs
             while tname(src) in ("CoerceToMemViewSliceNode", "CoerceToTempNode", "CloneNode"):
                 src = src.arg
+            self._bump(lhs.name)
+            if tname(src) == "NameNode" and src.name in self.pyfacts and self.pyfacts[src.name].get("len") is not None:
+                f = self.pyfacts[src.name]
+                if self.is_counter_type(getattr(lhs.type, "dtype", None)) or str(lhs.type).startswith(("long[", "int[", "Py_ssize_t[")):
+                    self.elem[lhs.name] = [f.get("lo"), f.get("hi")]
+                    if f.get("first") is not None:
+                        self.elem0[lhs.name] = (f["first"], self.ver.get(lhs.name, 0))
+                return self.assign(states, "len_" + lhs.name, f["len"])
             if tname(src) == "NameNode" and ("pylen_" + src.name) in self.pylen:
                 return self.assign(states, "len_" + lhs.name, self.pylen["pylen_" + src.name])
             sts = self.havoc(states, "len_" + lhs.name)
@@ -399,6 +685,21 @@ class Analyzer:
             for st in sts:
                 out.append(St.of(list(st) + [nn], st))
             return out
+        if t in ("Python object", "list object"):
+            facts = None
+            try:
+                facts = self.py_expr(n.rhs, states)
+            except Unknown:
+                facts = None
+            if facts is not None and (facts.get("len") is not None or facts.get("tag") is not None):
+                self.pyfacts[lhs.name] = facts
+                cons = facts.pop("cons", [])
+                if cons:
+                    states = [St.of(list(st) + cons, st) for st in states]
+                if facts.get("len") is not None and tname(n.rhs) not in ("GeneralCallNode",):
+                    return states
+            else:
+                self.pyfacts.pop(lhs.name, None)
         if t == "Python object":
             r = n.rhs
             while tname(r) in ("CoerceToTempNode", "CloneNode"):
@@ -419,6 +720,167 @@ class Analyzer:
             self.pylen.pop("pylen_" + lhs.name, None)
             return states
         return states  # data variable
+
+    # ---------------- Python-level prelude: lengths and element bounds of arrays built with NumPy
+    def _np_call(self, r):
+        """(function name, positional args) of numpy.<fn>(...) / len(...), else None"""
+        if tname(r) not in ("GeneralCallNode", "SimpleCallNode"):
+            return None
+        fn = r.function
+        if tname(r) == "GeneralCallNode":
+            args = r.positional_args.args
+        else:
+            args = r.args if getattr(r, "args", None) is not None else r.arg_tuple.args
+        if tname(fn) == "AttributeNode" and tname(fn.obj) == "NameNode" and fn.obj.name in ("numpy", "np"):
+            return fn.attribute, list(args)
+        if tname(fn) == "AttributeNode":
+            return "." + fn.attribute, [fn.obj] + list(args)
+        return None
+
+    def py_expr(self, r, states):
+        """Facts about a Python-level array/list expression: {"len": Lin|None, "lo": Lin|None, "hi": Lin|None,
+        "tag": provenance, "cons": constraints to add}.  Unknown forms give {}."""
+        while tname(r) in ("CoerceToTempNode", "CloneNode", "CoerceToPyTypeNode", "NoneCheckNode"):
+            r = r.arg
+        k = tname(r)
+        zero = Lin.const(0)
+        if k == "NameNode":
+            f = self.pyfacts.get(r.name)
+            return dict(f, name=r.name) if f else {"name": r.name}
+        if k == "ListNode":
+            if all(tname(a) == "IntNode" for a in r.args):
+                vals = [int(a.value) for a in r.args]
+                return {"len": Lin.const(len(vals)), "lo": Lin.const(min(vals)) if vals else None, "hi": Lin.const(max(vals)) if vals else None, "tag": ("ints", tuple(vals))}
+            return {"items": [self.py_expr(a, states) for a in r.args], "tag": ("list",)}
+        if k == "ComprehensionNode":
+            loop = r.loop
+            seq = loop.iterator.sequence
+            while tname(seq) in ("NoneCheckNode", "CoerceToTempNode"):
+                seq = seq.arg
+            if tname(loop) != "ForInStatNode" or tname(seq) != "NameNode" or tname(loop.target) != "NameNode":
+                return {}
+            X, v = seq.name, loop.target.name
+            xlen = (self.pyfacts.get(X) or {}).get("len")
+            body = loop.body
+            if tname(body) == "StatListNode" and len(body.stats) == 1:
+                body = body.stats[0]
+            if tname(body) == "ComprehensionAppendNode":
+                e = body.expr
+                while tname(e) in ("CoerceToPyTypeNode", "CoerceToTempNode"):
+                    e = e.arg
+                out = {"len": xlen, "tag": ("map", X)}
+                x_nonempty = bool((self.pyfacts.get(X) or {}).get("nonempty_elems"))
+                if xlen is None:
+                    sym = "pylen_" + X
+                    out["len"] = Lin.var(sym)
+                    out["cons"] = [zero.le(Lin.var(sym))]
+                # [a.shape[0] for a in X]: the lengths of the arrays in X
+                if tname(e) == "IndexNode" and tname(e.base) == "AttributeNode" and e.base.attribute == "shape" and tname(e.base.obj) == "NameNode" and e.base.obj.name == v \
+                        and tname(e.index) == "IntNode" and int(e.index.value) == 0:
+                    out.update(lo=Lin.const(1) if x_nonempty else zero, tag=("lengths_of", X))
+                return out
+            if tname(body) == "IfStatNode" and len(body.if_clauses) == 1 and body.else_clause is None:
+                sym = "pylen_%s_L%d" % (X, r.pos[1])
+                L = Lin.var(sym)
+                cons = [zero.le(L)]
+                if xlen is not None:
+                    cons.append(L.le(xlen))
+                out = {"len": L, "cons": cons, "tag": ("filter", X)}
+                c = body.if_clauses[0].condition
+                while tname(c) in ("CoerceToTempNode", "CoerceToBooleanNode", "CloneNode") and hasattr(c, "arg"):
+                    c = c.arg
+                if tname(c) == "SimpleCallNode" and tname(c.function) == "NameNode" and c.function.name == "len":
+                    ca = c.args if getattr(c, "args", None) is not None else c.arg_tuple.args
+                    a0 = ca[0]
+                    while tname(a0) in ("CoerceToPyTypeNode", "CoerceToTempNode"):
+                        a0 = a0.arg
+                    app = body.if_clauses[0].body
+                    if tname(app) == "StatListNode" and len(app.stats) == 1:
+                        app = app.stats[0]
+                    if tname(a0) == "NameNode" and a0.name == v and tname(app) == "ComprehensionAppendNode" and tname(app.expr) == "NameNode" and app.expr.name == v:
+                        out["nonempty_elems"] = True  # [a for a in X if len(a)]
+                return out
+            return {}
+        if k == "SliceIndexNode":
+            b = self.py_expr(r.base, states)
+            start, stop = r.start, r.stop
+            if not b or b.get("len") is None:
+                return {}
+            if (start is None or tname(start) == "NoneNode") and stop is not None and tname(stop) == "IntNode" and int(stop.value) == -1:
+                if states and all(entails(st, Lin.const(1).le(b["len"])) for st in states):
+                    return {"len": b["len"] - Lin.const(1), "lo": b.get("lo"), "hi": b.get("hi"), "tag": ("droplast", b.get("tag"), b.get("name"))}
+            return {}
+        if k == "AddNode":
+            a, b = self.py_expr(r.operand1, states), self.py_expr(r.operand2, states)
+            if not a or not b:
+                return {}
+            for x, y in ((a, b), (b, a)):
+                tg = x.get("tag")
+                if tg and tg[0] == "excl_cumsum" and y.get("name") == tg[1]:
+                    # concatenate([[0], cumsum(L)[:-1]]) + L == cumsum(L), element by element
+                    L = self.pyfacts.get(tg[1]) or {}
+                    self.lemmas.append("exclusive prefix sums of %s + %s = inclusive prefix sums of %s" % (tg[1], tg[1], tg[1]))
+                    return {"len": x.get("len"), "lo": L.get("lo"), "hi": x.get("hi"), "tag": ("incl_cumsum", tg[1])}
+            if a.get("len") is not None and b.get("len") is not None and states and all(entails(st, a["len"].le(b["len"])) and entails(st, b["len"].le(a["len"])) for st in states):
+                lo = a["lo"] + b["lo"] if a.get("lo") is not None and b.get("lo") is not None else None
+                hi = a["hi"] + b["hi"] if a.get("hi") is not None and b.get("hi") is not None else None
+                return {"len": a["len"], "lo": lo, "hi": hi, "tag": ("sum",)}
+            return {}
+        call = self._np_call(r)
+        if call is None:
+            return {}
+        fn, args = call
+        if fn in ("empty", "zeros", "ones") and args:
+            try:
+                return {"len": self.lin(args[0]), "tag": (fn,)}
+            except Unknown:
+                return {}
+        if fn in ("array", "asarray") and args:
+            return dict(self.py_expr(args[0], states), name=None)
+        if fn == "cumsum" and args:
+            a = self.py_expr(args[0], states)
+            if not a or a.get("len") is None:
+                return {}
+            out = {"len": a["len"], "tag": ("cumsum", a.get("name"))}
+            if a.get("lo") is not None and states and all(entails(st, zero.le(a["lo"])) for st in states):
+                out["lo"] = a["lo"]
+                tg = a.get("tag")
+                if tg and tg[0] == "lengths_of":
+                    # sum of the lengths of the arrays in X = length of their concatenation
+                    out["hi"] = Lin.var("sumlen_" + tg[1])
+                    self.lemmas.append("every prefix sum of the (non-negative) lengths of %s is at most len(concatenate(%s))" % (tg[1], tg[1]))
+            return out
+        if fn == "concatenate" and args:
+            a = self.py_expr(args[0], states)
+            if a.get("name") and not a.get("items"):
+                X = a["name"]
+                S = Lin.var("sumlen_" + X)
+                cons = [zero.le(S)]
+                fx = self.pyfacts.get(X) or {}
+                if fx.get("nonempty_elems") and fx.get("len") is not None:
+                    cons.append(fx["len"].le(S))  # every array contributes at least one element
+                return {"len": S, "cons": cons, "tag": ("concat", X)}
+            items = a.get("items")
+            if items and all(i.get("len") is not None for i in items):
+                total = items[0]["len"]
+                for i in items[1:]:
+                    total = total + i["len"]
+                out = {"len": total, "tag": ("concat-items",)}
+                for which in ("lo", "hi"):
+                    cands = [i.get(which) for i in items]
+                    if all(c is not None for c in cands) and states:
+                        for c in cands:
+                            if all(all(entails(st, c.le(o) if which == "lo" else o.le(c)) for st in states) for o in cands):
+                                out[which] = c
+                                break
+                if items[0].get("tag") and items[0]["tag"][0] == "ints" and items[0]["tag"][1]:
+                    out["first"] = Lin.const(items[0]["tag"][1][0])
+                # [[0], cumsum(L)[:-1]]: the exclusive prefix sums of L
+                if len(items) == 2 and items[0].get("tag") == ("ints", (0,)) and items[1].get("tag") and items[1]["tag"][0] == "droplast" \
+                        and items[1]["tag"][1] and items[1]["tag"][1][0] == "cumsum" and items[1]["tag"][1][1]:
+                    out["tag"] = ("excl_cumsum", items[1]["tag"][1][1])
+                return out
+        return {}
 
     def cond_expr_cases(self, rhs):
         r = rhs
@@ -464,7 +926,12 @@ class Analyzer:
             return exits  # paths needing more iterations are cut (bounded mode)
         exits = []
         for entry in entry_states:  # trace partitioning per entry disjunct
-            vars_ = sorted(set(v for c in entry for v in c[0]))
+            for v in self.modified(n.body):
+                self._bump(v)
+            for arr in self.written_arrays(n.body):
+                self._bump(arr)
+            vars_ = sorted(set(v for c in entry for v in c[0] if not str(v).startswith("rd")))
+            entry = St.of([c for c in entry if not any(str(v).startswith("rd") for v in c[0])], entry)
             cands = {}
 
             def add(c):
@@ -548,6 +1015,9 @@ def analyse_function(cyfunc):
         return res
     res["loops"] = a.loops
     res["nonaffine"] = a.nonaffine
+    res["lemmas"] = sorted(set(a.lemmas))
+    res["element_facts"] = {k: [repr(v[0]) if v[0] is not None else None, repr(v[1]) if v[1] is not None else None] for k, v in a.elem.items()}
+    res["weakened"] = sorted(a.weakened)
     failing = [k for k in a.order if not a.sites[k].ok]
     if failing:
         try:
